@@ -49,6 +49,11 @@ BaseAll == {[a \in AcctCU |-> Empty(AllFields)], [a \in AcctCU |-> IF a = "c" TH
 FNeg == {"bal", "code", "chash", "s1", "sui", "ev", "aid", "eq", "rs", "rai", "req"}
 KindsNeg == [a \in AcctC |-> {"bal", "s1", "code", "sui", "ev", "aid", "eq"}]
 BaseNeg == {[a \in AcctC |-> Empty(FNeg)]}
+\* ---- nesting: one attribute, revisions nested to depth 3, long enough for revert-inner / write / revert-outer
+FNest == {"bal", "s1", "rs"}
+KindsNest == [a \in AcctC |-> {"bal"}]
+BaseNest == {[a \in AcctC |-> Empty(FNest)]}
+KindsNegGap == [a \in AcctC |-> {"bal", "s1"}]
 NoDev == {}
-AllDev == {"Dev_UndoCodeDropsPreviousCode", "Dev_UndoSuicideShallow", "Dev_UndoEventNoop", "Dev_RevertVersionGapPanics", "Dev_UndoFirstEquityPanics"}
+AllDev == {"Dev_MergeAcrossSuicide", "Dev_WorthlessSuicideDropped", "Dev_UndoCodeDropsPreviousCode", "Dev_UndoSuicideShallow", "Dev_UndoEventNoop", "Dev_RevertVersionGapPanics", "Dev_UndoFirstEquityPanics"}
 ====
